@@ -73,6 +73,8 @@ type SchemaSpec struct {
 	Types    []TypeSpec `json:"types"`
 	Query    string     `json:"query"`
 	Mutation string     `json:"mutation,omitempty"`
+	// Subscription root (independent of Mutation: all four combinations are generated)
+	Subscription string `json:"subscription,omitempty"`
 }
 
 func (s *SchemaSpec) Type(name string) *TypeSpec {
@@ -176,7 +178,7 @@ func (s *SchemaSpec) Sexp() hx.Sexp {
 		}
 		return hx.L(out...)
 	}
-	parts := []hx.Sexp{hx.A(s.Query), opt(s.Mutation), hx.A("none")}
+	parts := []hx.Sexp{hx.A(s.Query), opt(s.Mutation), opt(s.Subscription)}
 	for _, t := range s.Types {
 		switch t.Kind {
 		case "enum":
@@ -358,6 +360,9 @@ func (s *SchemaSpec) RootFor(kind string) string {
 	}
 	if kind == "query" {
 		return s.Query
+	}
+	if kind == "subscription" {
+		return s.Subscription
 	}
 	return ""
 }
